@@ -26,7 +26,11 @@ int main(int argc, char** argv)
         {R"([{"op":"add","path":"/b/1","value":9}])", R"({"a":1,"b":[1,9,2,3],"c":{"d":"x"}})"}, {R"([{"op":"add","path":"/b/-","value":9}])", R"({"a":1,"b":[1,2,3,9],"c":{"d":"x"}})"},
         {R"([{"op":"add","path":"/a","value":9}])", R"({"a":9,"b":[1,2,3],"c":{"d":"x"}})"}, {R"([{"op":"remove","path":"/b/1"}])", R"({"a":1,"b":[1,3],"c":{"d":"x"}})"},
         {R"([{"op":"replace","path":"/c/d","value":null}])", R"({"a":1,"b":[1,2,3],"c":{"d":null}})"}, {R"([{"op":"move","from":"/a","path":"/c/a"}])", R"({"b":[1,2,3],"c":{"a":1,"d":"x"}})"},
-        {R"([{"op":"copy","from":"/b","path":"/c/b"}])", R"({"a":1,"b":[1,2,3],"c":{"b":[1,2,3],"d":"x"}})"}, {R"([{"op":"test","path":"/b","value":[1,2,3]},{"op":"remove","path":"/a"}])", R"({"b":[1,2,3],"c":{"d":"x"}})"}, {R"([])", R"({"a":1,"b":[1,2,3],"c":{"d":"x"}})"}};
+        {R"([{"op":"copy","from":"/b","path":"/c/b"}])", R"({"a":1,"b":[1,2,3],"c":{"b":[1,2,3],"d":"x"}})"}, {R"([{"op":"test","path":"/b","value":[1,2,3]},{"op":"remove","path":"/a"}])", R"({"b":[1,2,3],"c":{"d":"x"}})"}, {R"([])", R"({"a":1,"b":[1,2,3],"c":{"d":"x"}})"},
+        // move = remove, then add (RFC 6902 4.4): "-" is resolved on the document after the removal
+        {R"([{"op":"move","from":"/b/0","path":"/b/-"}])", R"({"a":1,"b":[2,3,1],"c":{"d":"x"}})"}, {R"([{"op":"move","from":"/b/2","path":"/b/-"}])", R"({"a":1,"b":[1,2,3],"c":{"d":"x"}})"},
+        {R"([{"op":"add","path":"/m","value":["x",[1],[7,8,9]]},{"op":"move","from":"/m/0","path":"/m/1/-"}])", R"({"a":1,"b":[1,2,3],"c":{"d":"x"},"m":[[1],[7,8,9,"x"]]})"},
+        {R"([{"op":"copy","from":"/b/0","path":"/b/-"}])", R"({"a":1,"b":[1,2,3,1],"c":{"d":"x"}})"}};
     for (auto& c : oks) { json d = doc; std::error_code ec; ++total; jsonpatch::apply_patch(d, json::parse(c.patch), ec); if (ec || d != json::parse(c.result)) { if (!bad) first = std::string("patch ") + c.patch + " gives " + d.to_string() + (ec ? " with error " + ec.message() : ""); ++bad; } }
     if (bad) VX_REPRO(bad << " of " << total << " patches are not handled as RFC 6902 prescribes, first: " << first);
     VX_NOREPRO("all " << total << " patches are applied or refused as RFC 6902 prescribes");
